@@ -287,6 +287,28 @@ impl vstd::std_specs::convert::FromSpecImpl<u64> for CBOR {
 impl From<u64> for CBOR {
     fn from(v: u64) -> Self { CBOR(RefCounted::new(CBORCase::Unsigned(v))) }
 }
+// dcbor `From<u32> for CBOR`, `From<u8>`, `From<u16>`: the unsigned item of the widened value  [A-uint-cbor]
+impl vstd::std_specs::convert::FromSpecImpl<u32> for CBOR {
+    open spec fn obeys_from_spec() -> bool { true }
+    open spec fn from_spec(v: u32) -> Self { CBOR(RefCounted::new(CBORCase::Unsigned(v as u64))) }
+}
+impl From<u32> for CBOR {
+    fn from(v: u32) -> Self { CBOR(RefCounted::new(CBORCase::Unsigned(v as u64))) }
+}
+impl vstd::std_specs::convert::FromSpecImpl<u16> for CBOR {
+    open spec fn obeys_from_spec() -> bool { true }
+    open spec fn from_spec(v: u16) -> Self { CBOR(RefCounted::new(CBORCase::Unsigned(v as u64))) }
+}
+impl From<u16> for CBOR {
+    fn from(v: u16) -> Self { CBOR(RefCounted::new(CBORCase::Unsigned(v as u64))) }
+}
+impl vstd::std_specs::convert::FromSpecImpl<u8> for CBOR {
+    open spec fn obeys_from_spec() -> bool { true }
+    open spec fn from_spec(v: u8) -> Self { CBOR(RefCounted::new(CBORCase::Unsigned(v as u64))) }
+}
+impl From<u8> for CBOR {
+    fn from(v: u8) -> Self { CBOR(RefCounted::new(CBORCase::Unsigned(v as u64))) }
+}
 // [A-u64-try-from-cbor] dcbor: u64::try_from(cbor) is Ok(v) exactly for Unsigned(v)
 impl vstd::std_specs::convert::TryFromSpecImpl<CBOR> for u64 {
     open spec fn obeys_try_from_spec() -> bool { true }
@@ -697,17 +719,13 @@ pub fn hashset_extend_from(set: &mut HashSet<Digest>, other: &HashSet<Digest>)
 pub fn hashset_singleton(x: Digest) -> (r: HashSet<Digest>)
     ensures r@ == set![x]
 { unimplemented!() }
-// [A-hashset-clone] HashSet<Digest>::clone (rule R-subst: vstd gives it no specification and its generic
-// allocator parameter prevents an assume_specification that mentions the view)
-#[verifier::external_body]
-pub fn hashset_clone(s: &HashSet<Digest>) -> (r: HashSet<Digest>)
-    ensures r@ == s@
-{ unimplemented!() }
-// [A-hashset-is-subset] HashSet<Digest>::is_subset (same reason)
-#[verifier::external_body]
-pub fn hashset_is_subset(a: &HashSet<Digest>, b: &HashSet<Digest>) -> (r: bool)
-    ensures r == a@.subset_of(b@)
-{ unimplemented!() }
+// [A-hashset-clone], [A-hashset-is-subset], [A-hashset-is-disjoint]: std HashSet operations vstd has no specification for
+pub assume_specification<T: Clone, S: Clone, A: std::alloc::Allocator + Clone> [<std::collections::HashSet<T, S, A> as Clone>::clone] (s: &std::collections::HashSet<T, S, A>) -> (r: std::collections::HashSet<T, S, A>)
+    ensures r@ == s@;
+pub assume_specification<T: std::cmp::Eq + std::hash::Hash, S: std::hash::BuildHasher, A: std::alloc::Allocator> [std::collections::HashSet::<T, S, A>::is_subset] (a: &std::collections::HashSet<T, S, A>, b: &std::collections::HashSet<T, S, A>) -> (r: bool)
+    ensures r == a@.subset_of(b@);
+pub assume_specification<T: std::cmp::Eq + std::hash::Hash, S: std::hash::BuildHasher, A: std::alloc::Allocator> [std::collections::HashSet::<T, S, A>::is_disjoint] (a: &std::collections::HashSet<T, S, A>, b: &std::collections::HashSet<T, S, A>) -> (r: bool)
+    ensures r == a@.disjoint(b@);
 
 // ============================================================================ leaf payload types of bc-components
 // Each is an opaque type with an uninterpreted CBOR image (its `From<T> for CBOR` in bc-components): [A-leaf-cbor]
